@@ -404,7 +404,7 @@ def run_main(
     target: str,
     text: Optional[str],
     arg_defect: str = "none",
-    timeout: int = 900,
+    timeout: int = 3000,
     cache_flag: bool = False,
 ) -> Dict[str, Any]:
     """One traced run of main.execute. `text` is the model text when the model path is a regular file."""
@@ -470,7 +470,7 @@ def run_main(
     }
 
 
-def run_smoke(model_path: pathlib.Path, text: str, timeout: int = 900) -> Dict[str, Any]:
+def run_smoke(model_path: pathlib.Path, text: str, timeout: int = 3000) -> Dict[str, Any]:
     from aas_core_codegen.smoke import main as smoke_main
 
     install()
